@@ -3,6 +3,7 @@
 //! Input (stdin): scripts separated by header lines `//// <id> [key=value ...]`.
 //!   keys: reuse=1 (keep the context of the previous script), reset=1 (drop the kept context first), loop=<n> rec=<n> stack=<n> (runtime limits),
 //!         budget=<n> (instruction budget), opt=<bits> (optimizer options; absent = default),
+//!         cons=<bits> (conservative compilation hook: 1 every binding in an environment, 2 no const cache, 4 no hoisting, 8 no fused branches),
 //!         ic=0 (inline caches off, hook), icrec=1 (record InlineCache get/set events into "ic")
 use boa_engine::optimizer::OptimizerOptions;
 use bvh::{Limits, eval_in, guarded, new_context};
@@ -30,6 +31,7 @@ fn main() {
         let mut opt: Option<u8> = None;
         let mut ic_on = true;
         let mut ic_rec = false;
+        let mut cons: u8 = 0;
         for kv in it {
             if let Some((k, v)) = kv.split_once('=') {
                 match k {
@@ -42,6 +44,7 @@ fn main() {
                     "opt" => opt = v.parse().ok(),
                     "ic" => ic_on = v != "0",
                     "icrec" => ic_rec = v == "1",
+                    "cons" => cons = v.parse().unwrap_or(0),
                     _ => {}
                 }
             }
@@ -53,6 +56,7 @@ fn main() {
         boa_engine::verif::set_inline_caches(ic_on);
         boa_engine::verif::record_ic_events(ic_rec);
         let _ = boa_engine::verif::take_ic_events();
+        boa_ast::scope::verif::set_conservative(cons);
         let src = body.into_bytes();
         let mut cell = Some(ctx);
         let t = guarded(std::panic::AssertUnwindSafe(|| {
@@ -65,6 +69,7 @@ fn main() {
         if ic_rec {
             j["ic"] = serde_json::json!(boa_engine::verif::take_ic_events());
         }
+        boa_ast::scope::verif::set_conservative(0);
         boa_engine::verif::set_inline_caches(true);
         boa_engine::verif::record_ic_events(false);
         println!("{j}");
